@@ -70,7 +70,14 @@ def run_case(case, ctx):
         opts.update(dtype_ids='uint16', far_ids=14000, nt=6, ns=max(opts['ns'], 40), clusters='curated', curation_ops=6, spikeless='none')
     elif case['seed'][-1] % 25 == 8:
         opts.update(dtype_ids='uint16', far_ids=0, nt=300, ns=900, nc=6, clusters='curated', curation_ops=6)
+    if case['seed'][-1] % 25 == 9:
+        opts.update(nt=40, ns=240, nc=[13, 20][case['seed'][-1] % 2], clusters='curated', far_ids=0, dtype_ids='int32')
     spec = random_spec(rng, **opts)
+    if case['seed'][-1] % 25 == 9:
+        # one big cluster merged from 35 of 40 templates (a 'noise' cluster)
+        sc_ = spec.clusters.copy()
+        sc_[np.isin(spec.spike_templates, np.arange(35))] = int(sc_.max()) + 3
+        spec.spike_clusters = sc_
     if rng.random() < 0.3:
         spec.notes['amplitude_threshold'] = [0.5, 0.3][int(rng.integers(0, 2))]     # params.py options
     if rng.random() < 0.2:
